@@ -5,3 +5,4 @@ import Revm.Props.C13
 import Revm.Props.C27
 import Revm.Props.C32
 import Revm.Props.C04
+import Revm.Props.C06
